@@ -105,6 +105,32 @@ class Proto:
                 self.rec.close(commit=a["commit"])
                 self.rec = None
                 self.rname = ""
+        elif op == "open_older":
+            if self.rec is not None:
+                raise RuntimeError("harness: open_older while a handle is open")
+            fs = [c for c in protolib.scan(self.d, [a["rname"]])[0] if c["idx"] < a["k"]]
+            fl = [protolib.container_path(self.d, c["fn"]) for c in fs]
+            self.rng.shuffle(fl)
+            try:
+                rec = self.cls(fl, a["mode"])
+            except BaseException:
+                gc.collect()
+                raise
+            rec.close(commit=False)
+        elif op == "delete_files":
+            if self.rec is not None:
+                raise RuntimeError("harness: delete_files while a handle is open")
+            self.cls.delete_files(self.d / a["rname"])
+        elif op == "list_records":
+            # observations of the directory: record names and the files found per record name
+            listed = sorted(p.name for p in self.cls.list_records(self.d))
+            allrec = sorted({protolib.parse_fn(f.name)[0] for f in self.d.iterdir() if protolib.parse_fn(f.name)})
+            found = []
+            for rn in allrec + ["nonexistent", allrec[0][:-1] if allrec and len(allrec[0]) > 1 else "zz"]:
+                exp = sorted(f.name for f in self.d.iterdir() if protolib.parse_fn(f.name) and protolib.parse_fn(f.name)[0] == rn)
+                got = sorted(p.name for p in self.cls.find_files(self.d / rn))
+                found.append({"name": rn, "files": got, "expected": exp})
+            extra.update(listed=listed, all_records=allrec, found=found)
         elif op == "merge":
             r = self._need()
             before = json.dumps([json.loads(m.json()) for m in r.ih5_meta], sort_keys=True)
@@ -175,10 +201,10 @@ def make_event(p: Proto, a: Dict[str, Any], ok: bool, exc: Optional[str], extra=
     fr = protolib.fresh_of(protolib.newest(disk, target))
     act = {"op": a["op"], "mode": a.get("mode", ""), "rname": a.get("rname", ""),
            "bylist": bool(a.get("bylist", False)), "cls": p.clsname, "commit": bool(a.get("commit", True)),
-           "target": a.get("target", ""), "fr": fr}
+           "target": a.get("target", ""), "fr": fr, "k": int(a.get("k", 0))}
     ev = {"op": a["op"], "a": act, "ok": ok, "exc": exc or "", "disk": disk, "mfd": mfd, "nb": nb,
           "h": p.handle(), "vw": p.view_digest(), "cls": p.clsname, "timeout": False}
-    ev.update({"merged_vw": "", "meta_before": "", "meta_after": "",
+    ev.update({"merged_vw": "", "meta_before": "", "meta_after": "", "listed": [], "all_records": [], "found": [],
                "chain": chain_checks(p, disk) if a["op"] in ("commit", "open") and ok else []})
     if extra:
         ev.update(extra)
@@ -208,6 +234,15 @@ def situation_script(sit: str, rname: str) -> List[Dict[str, Any]]:
 
 def gen_action(rng: random.Random, p: Proto) -> Dict[str, Any]:
     h = p.handle()
+    if not h["open"] and rng.random() < 0.12:
+        return {"op": "delete_files", "rname": rng.choice(p.names[:3])}
+    if rng.random() < 0.08:
+        return {"op": "list_records"}
+    if not h["open"] and rng.random() < 0.15:
+        rn = rng.choice(p.names[:2])
+        n = len([c for c in protolib.scan(p.d, [rn])[0]])
+        if n >= 2:
+            return {"op": "open_older", "rname": rn, "mode": rng.choice(["r", "r+", "a"]), "k": rng.randint(1, n - 1)}
     if not h["open"]:
         return {"op": "open", "mode": rng.choice(["r", "r+", "a", "a", "r+", "w", "x", "w-"]),
                 "rname": rng.choice(p.names[:2]), "bylist": rng.random() < 0.3}
